@@ -1,6 +1,7 @@
 package main
 
 import (
+	"fmt"
 	"go/constant"
 	"go/token"
 	"go/types"
@@ -303,7 +304,23 @@ func (r *decideRun) foldValue(v ssa.Value) (AV, bool) {
 			if k, ok := constI(idx); ok && base.Kind == "list" && k >= 0 && k < len(base.Tup) {
 				return base.Tup[k], true
 			}
+		case *ssa.FieldAddr:
+			// a field of a package-level struct variable that is only written by its initialiser
+			if g, isG := a.X.(*ssa.Global); isG {
+				if sv, ok := r.globalStructAV(g); ok {
+					if fv, has := sv.Fields[fmt.Sprintf(".f%d", a.Field)]; has {
+						return fv, true
+					}
+				}
+			}
 		case *ssa.Global:
+			if pt, ok := a.Type().(*types.Pointer); ok {
+				if _, isSt := pt.Elem().Underlying().(*types.Struct); isSt {
+					if sv, ok := r.globalStructAV(a); ok {
+						return sv, true
+					}
+				}
+			}
 			if pt, ok := a.Type().(*types.Pointer); ok {
 				if ep, isP := pt.Elem().(*types.Pointer); isP {
 					if nm := namedOf(ep.Elem()); nm != nil && nm.Obj().Pkg() != nil && nm.Obj().Pkg().Path() == "regexp" && nm.Obj().Name() == "Regexp" {
@@ -428,4 +445,164 @@ func globalInitCall(g *ssa.Global) *ssa.Call {
 		return nil
 	}
 	return call
+}
+
+// globalStructAV: the value of a package-level struct variable whose fields are written exactly once each, by
+// the package initialiser (a composite-literal initialiser), and nowhere else.
+func (r *decideRun) globalStructAV(g *ssa.Global) (AV, bool) {
+	if g.Pkg == nil {
+		return AV{}, false
+	}
+	pt, ok := g.Type().(*types.Pointer)
+	if !ok {
+		return AV{}, false
+	}
+	st, ok := pt.Elem().Underlying().(*types.Struct)
+	if !ok {
+		return AV{}, false
+	}
+	vals := map[int]ssa.Value{}
+	okAll := true
+	for _, m := range g.Pkg.Members {
+		fn, isFn := m.(*ssa.Function)
+		if !isFn {
+			continue
+		}
+		for _, f := range allFuncsWithAnon(fn) {
+			for _, b := range f.Blocks {
+				for _, in := range b.Instrs {
+					switch x := in.(type) {
+					case *ssa.Store:
+						if x.Addr == ssa.Value(g) {
+							okAll = false // assigned whole somewhere
+						}
+						if fa, isFA := x.Addr.(*ssa.FieldAddr); isFA && fa.X == ssa.Value(g) {
+							if f.Name() != "init" {
+								okAll = false
+							}
+							if _, dup := vals[fa.Field]; dup {
+								okAll = false
+							}
+							vals[fa.Field] = x.Val
+						}
+					case *ssa.FieldAddr:
+						// the address of a field handed elsewhere
+						if x.X == ssa.Value(g) {
+							for _, ref := range *x.Referrers() {
+								switch ref.(type) {
+								case *ssa.Store, *ssa.UnOp, *ssa.DebugRef:
+								default:
+									okAll = false
+								}
+							}
+						}
+					}
+				}
+			}
+		}
+	}
+	if !okAll {
+		return AV{}, false
+	}
+	out := AV{Kind: "struct", Fields: map[string]AV{}}
+	for i := 0; i < st.NumFields(); i++ {
+		key := fmt.Sprintf(".f%d", i)
+		if v, has := vals[i]; has {
+			saved := r.err
+			a := r.eval(v)
+			r.err = saved
+			if a.Kind != "unknown" && a.Kind != "" {
+				out.Fields[key] = a
+			}
+			continue
+		}
+		if z, okZ := zeroAV(st.Field(i).Type()); okZ {
+			out.Fields[key] = z
+		}
+	}
+	return out, true
+}
+
+// builderStep applies, in execution order, a method call on a local strings.Builder whose arguments are decided:
+// the text accumulated so far is kept in the path's memory under the builder's address.  A call with an
+// undecided argument poisons the content (it stays unknown from then on).
+func (r *decideRun) builderStep(x *ssa.Call) {
+	if x.Call.IsInvoke() {
+		return
+	}
+	cal, _ := calleeOf(x.Common())
+	if cal == nil || cal.Pkg() == nil || cal.Pkg().Path() != "strings" {
+		return
+	}
+	sig := cal.Type().(*types.Signature)
+	if sig.Recv() == nil || len(x.Call.Args) == 0 {
+		return
+	}
+	if nm := namedOf(sig.Recv().Type()); nm == nil || nm.Obj().Name() != "Builder" {
+		return
+	}
+	key, ok := r.addrKey(x.Call.Args[0])
+	if !ok {
+		return
+	}
+	key += ".builder"
+	if r.mem == nil {
+		r.mem = map[string]AV{}
+	}
+	cur, has := r.mem[key]
+	if !has {
+		if !r.liveBase(strings.TrimSuffix(key, ".builder")) {
+			return
+		}
+		cur = avStr("")
+	}
+	curS, known := avString(cur)
+	saved := r.err
+	arg := func(i int) AV {
+		if i >= len(x.Call.Args) {
+			return AV{Kind: "unknown"}
+		}
+		return r.eval(x.Call.Args[i])
+	}
+	poison := func() { r.mem[key] = AV{Kind: "unknown"} }
+	switch cal.Name() {
+	case "Grow", "Reset":
+		if cal.Name() == "Reset" {
+			r.mem[key] = avStr("")
+		} else if !has {
+			r.mem[key] = cur
+		}
+	case "WriteByte":
+		if k, okK := constI(arg(1)); okK && known {
+			r.mem[key] = avStr(curS + string([]byte{byte(k)}))
+			r.memo[x] = AV{Kind: "nil"}
+		} else {
+			poison()
+		}
+	case "WriteRune":
+		if k, okK := constI(arg(1)); okK && known {
+			r.mem[key] = avStr(curS + string(rune(k)))
+			r.memo[x] = AV{Kind: "tuple", Tup: []AV{avInt(int64(len(string(rune(k))))), {Kind: "nil"}}}
+		} else {
+			poison()
+		}
+	case "WriteString":
+		if str, okS := avString(arg(1)); okS && known {
+			r.mem[key] = avStr(curS + str)
+			r.memo[x] = AV{Kind: "tuple", Tup: []AV{avInt(int64(len(str))), {Kind: "nil"}}}
+		} else {
+			poison()
+		}
+	case "String":
+		if known {
+			r.memo[x] = avStr(curS)
+		}
+	case "Len":
+		if known {
+			r.memo[x] = avInt(int64(len(curS)))
+		}
+	default:
+		poison()
+	}
+	r.err = saved
 }
